@@ -29,7 +29,11 @@ import (
 // ---------------------------------------------------------------- streams
 
 // srStream builds metadata + nchunks chunks of nsamples samples each (three int64 metrics)
-func srStream(nchunks, nsamples int) []byte {
+func srStream(nchunks, nsamples int) []byte { return srStreamWith(nchunks, nsamples, false) }
+
+// with others set, two documents that are neither metadata nor a metric chunk (one of type 2, one without a type field)
+// follow the first chunk: a reader skips them and goes on with the rest of the stream
+func srStreamWith(nchunks, nsamples int, others bool) []byte {
 	w := &logWriter{}
 	c := newCollector("sdyn", nsamples, w)
 	_ = c.SetMetadata(encDoc(metaDocs[0]))
@@ -51,6 +55,23 @@ func srStream(nchunks, nsamples int) []byte {
 	out := []byte{}
 	for _, x := range w.writes {
 		out = append(out, x...)
+	}
+	if others {
+		docs, _ := walkDocs(out)
+		out = []byte{}
+		placed := false
+		for _, d := range docs {
+			out = append(out, d...)
+			if es, ok := walkElems(d); ok && !placed {
+				for _, e := range es {
+					if e.key == "data" {
+						out = append(out, encDoc([]elem{{"type", &val{T: 0x10, I: 2}}, {"x", &val{T: 0x12, I: 5}}})...)
+						out = append(out, encDoc([]elem{{"note", &val{T: 0x02, B: []byte("no type field")}}})...)
+						placed = true
+					}
+				}
+			}
+		}
 	}
 	return out
 }
@@ -146,7 +167,7 @@ type srCase struct {
 }
 
 func srCases(nchunks, nsamples int) []srCase {
-	base := srStream(nchunks, nsamples)
+	base := srStreamWith(nchunks, nsamples, nchunks >= 2)
 	docs, _ := walkDocs(base)
 	var cs []srCase
 	cs = append(cs, srCase{"good", 0, func() io.Reader { return bytes.NewReader(base) }, srAbstract(base, -1, -1, false), false})
@@ -376,7 +397,14 @@ func c05Run(entry string, cs srCase, label string, occ int, settle time.Duration
 	return o
 }
 
+// runs whose consumer never finished cost ten seconds each; after this many the enumeration stops (the check has failed
+// by then), so that a broken implementation does not take hours to report
+var c05Hung, c05MaxHung = 0, 20
+
 func c05Line(o *out, entry string, cs srCase, label string, occ int, ob c05Obs) {
+	if ob.e2 == -2 {
+		c05Hung++
+	}
 	if label == "" {
 		label = "-"
 	}
@@ -470,6 +498,9 @@ func c05Main(args []string) error {
 	}
 	for _, entry := range srEntries {
 		for _, cs := range cases {
+			if c05Hung >= c05MaxHung {
+				break
+			}
 			// log-only run: which points occur, and how often
 			dry := c05Run(entry, cs, "", 0, settle, nil)
 			c05Line(o, entry, cs, "", 0, dry)
@@ -485,12 +516,12 @@ func c05Main(args []string) error {
 				}
 				n := dry.counts[l]
 				// one more than seen: occurrence counts depend on the schedule
-				for occ := 1; occ <= n+1 && occ <= lim; occ++ {
+				for occ := 1; occ <= n+1 && occ <= lim && c05Hung < c05MaxHung; occ++ {
 					ob := c05Run(entry, cs, l, occ, settle, nil)
 					c05Line(o, entry, cs, l, occ, ob)
 				}
 			}
-			for i := 0; i < nPerturb; i++ {
+			for i := 0; i < nPerturb && c05Hung < c05MaxHung; i++ {
 				seed := r.u64() % 1000000
 				ob := c05Run(entry, cs, "", int(seed), settle, newRng(seed))
 				c05Line(o, entry, cs, "", int(seed), ob)
